@@ -31,7 +31,7 @@ import strax.mailbox as mbmod  # noqa: E402
 import hplugins as H  # noqa: E402
 import pipeline as PL  # noqa: E402
 
-ROWS = [[1, 2, 1], [3, 5, 2], [5, 6, 3], [8, 9, 4], [10, 11, 7]]
+ROWS = [[1, 2, 1], [2, 3, 2], [3, 7, 3], [8, 9, 4], [10, 11, 7]]      # a row longer than the overlap window + 1 with a neighbour right before it
 EVENTS = [[0, 4, 0], [5, 10, 1], [10, 12, 2]]
 RUN_END = 12
 WL, WR = 1, 1
